@@ -501,6 +501,29 @@ func (h *histRun) mkBeh(kind string, f *fakeSrv, known map[glow.PublicKey]client
 		extra, _ := h.addFake(false)
 		spec.servers = append(h.listFor(known, nil, nil), h.signedEntry(stranger, extra, false))
 		return send(signedWire(h.tab, spec.content(), f.key))
+	case "badsrvsig-known": // entries for keys the client ALREADY knows, same ban flag, other address, not signed by the GCA
+		stranger := newKey()
+		for _, k := range sortedKeys(known) {
+			fk, ok := h.fakes[k]
+			if !ok {
+				continue
+			}
+			spec.servers = append(spec.servers, mkAS(h.tab, stranger, k, known[k].Banned, "127.0.0.7", 21, fk.port, 22))
+		}
+		if len(spec.servers) == 0 {
+			spec.servers = []server.AuthorizedServer{mkAS(h.tab, stranger, f.key.pub, false, "127.0.0.7", 21, f.port, 22)}
+		}
+		return send(signedWire(h.tab, spec.content(), f.key))
+	case "badinner-known": // a genuine order of the current GCA whose new servers are keys the client already knows, NOT signed by the new GCA
+		ng := newKey()
+		var ns []server.AuthorizedServer
+		for _, k := range sortedKeys(known) {
+			if fk, ok := h.fakes[k]; ok {
+				ns = append(ns, mkAS(h.tab, h.gca, k, known[k].Banned, "127.0.0.1", 9, fk.port, 9)) // signed by the OLD GCA
+			}
+		}
+		m := mkMig(h.tab, h.gca, h.cd.dev.pub, ng.pub, uint32(h.rng.Range(1, 1<<30)), ns)
+		return send(signedWire(h.tab, spec.withMigration(m).content(), f.key))
 	case "badlen": // rogue server: the list region is cut in the middle of an entry, correctly signed
 		spec.servers = h.listFor(known, nil, nil)
 		if len(spec.servers) == 0 {
@@ -614,7 +637,7 @@ func (h *histRun) mkBeh(kind string, f *fakeSrv, known map[glow.PublicKey]client
 	panic("unknown behaviour " + kind)
 }
 
-var failKinds = []string{"reset", "refusal-byte", "short", "badsig", "stale", "future", "wrongdev", "badsrvsig", "badlen", "rogue-short", "garbage", "tiny", "badmig"}
+var failKinds = []string{"reset", "refusal-byte", "short", "badsig", "stale", "future", "wrongdev", "badsrvsig", "badsrvsig-known", "badinner-known", "badlen", "rogue-short", "garbage", "tiny", "badmig"}
 var okKinds = []string{"success", "success", "delayed", "early"}
 
 // ---------------------------------------------------------------- the suite
